@@ -31,7 +31,7 @@ pub fn binary() -> Result<PathBuf, String> {
     static BIN: OnceLock<Result<PathBuf, String>> = OnceLock::new();
     BIN.get_or_init(|| {
         let td = format!("{}/.build/real", home());
-        cargo_in_repo(&["build", "--release", "--offline", "-q", "--bin", "hyeong", "--target-dir", &td])?;
+        cargo_in_repo(&["build", "--release", "--offline", "-q", "--lib", "--bin", "hyeong", "--target-dir", &td])?;
         let p = PathBuf::from(format!("{}/release/hyeong", td));
         if p.exists() {
             Ok(p)
@@ -180,4 +180,91 @@ pub fn chunks_from_plan(plan: &simcore::Plan, n: usize) -> Vec<usize> {
         return Vec::new();
     }
     (0..n.max(1).min(4096)).map(|i| 1 + (simcore::mix(plan.key ^ (i as u64).wrapping_mul(0x9FB2_1C65_1E98_DF25)) % plan.max_chunk as u64) as usize).collect()
+}
+
+/// The C10 probe executable, linked against the guard-off full library.
+pub fn optprobe() -> Result<PathBuf, String> {
+    static P: OnceLock<Result<PathBuf, String>> = OnceLock::new();
+    P.get_or_init(|| {
+        binary()?;
+        let td = format!("{}/.build/real/release", home());
+        let src = format!("{}/sim/probe/optprobe.rs", home());
+        let exe = PathBuf::from(format!("{}/.build/optprobe", home()));
+        let out = Command::new("rustc")
+            .args(["--edition", "2018", "-C", "opt-level=2", "--cap-lints", "allow"])
+            .arg("--extern")
+            .arg(format!("hyeong={}/libhyeong.rlib", td))
+            .arg("-L")
+            .arg(format!("dependency={}/deps", td))
+            .arg("-o")
+            .arg(&exe)
+            .arg(&src)
+            .env_remove("RUSTFLAGS")
+            .output()
+            .map_err(|e| format!("cannot run rustc: {}", e))?;
+        if !out.status.success() {
+            return Err(format!("optprobe does not compile: {}", String::from_utf8_lossy(&out.stderr)));
+        }
+        Ok(exe)
+    })
+    .clone()
+}
+
+/// Run with stdin connected to a regular file; returns how many bytes of it the
+/// child consumed (the file offset is shared with the child).
+pub fn run_stdin_file(exe: &Path, args: &[String], stdin_file: &Path, timeout: Duration) -> Result<(RealOut, u64), String> {
+    use std::io::Seek;
+    let t0 = Instant::now();
+    let mut f = std::fs::File::open(stdin_file).map_err(|e| e.to_string())?;
+    let child_in = f.try_clone().map_err(|e| e.to_string())?;
+    let mut child = Command::new(exe)
+        .args(args)
+        .stdin(Stdio::from(child_in))
+        .stdout(Stdio::piped())
+        .stderr(Stdio::piped())
+        .env("RUST_BACKTRACE", "0")
+        .spawn()
+        .map_err(|e| format!("spawn {:?}: {}", exe, e))?;
+    let mut so = child.stdout.take().unwrap();
+    let mut se = child.stderr.take().unwrap();
+    let ot = std::thread::spawn(move || {
+        let mut b = Vec::new();
+        let _ = so.read_to_end(&mut b);
+        b
+    });
+    let et = std::thread::spawn(move || {
+        let mut b = Vec::new();
+        let _ = se.read_to_end(&mut b);
+        b
+    });
+    let mut timed_out = false;
+    let status = loop {
+        match child.try_wait() {
+            Ok(Some(s)) => break Some(s),
+            Ok(None) => {
+                if t0.elapsed() > timeout {
+                    let _ = child.kill();
+                    timed_out = true;
+                    break child.wait().ok();
+                }
+                std::thread::sleep(Duration::from_micros(300));
+            }
+            Err(_) => break None,
+        }
+    };
+    let stdout = ot.join().unwrap_or_default();
+    let stderr = et.join().unwrap_or_default();
+    let consumed = f.stream_position().map_err(|e| e.to_string())?;
+    use std::os::unix::process::ExitStatusExt;
+    Ok((
+        RealOut {
+            status: status.and_then(|s| s.code()),
+            signal: status.and_then(|s| s.signal()),
+            stdout,
+            stderr,
+            timed_out,
+            wall_ms: t0.elapsed().as_millis() as u64,
+        },
+        consumed,
+    ))
 }
